@@ -43,7 +43,9 @@ func Mutate(r *mon.Rand, s string, saddrs []string) string {
 	n := r.Range(1, 4)
 	for i := 0; i < n; i++ {
 		b := []byte(s)
-		switch r.Intn(14) {
+		switch r.Intn(15) {
+		case 14: // a run of white space (not only blanks) after the header, at an end, or at a token boundary
+			s = mutateWhitespace(r, s)
 		case 12: // a delimited group ({...}, (...), [...], "...", '...'): delete it, empty it, or drop one delimiter
 			s = mutateGroup(r, s)
 		case 13: // delete a run of 2-4 consecutive tokens
@@ -159,4 +161,43 @@ func mutateGroup(r *mon.Rand, s string) string {
 	default:
 		return s[:sp.b] + s[sp.b+1:]
 	}
+}
+
+// mutateWhitespace inserts a run of 1-64 white-space characters (LF, CR LF, TAB, VT, FF, NBSP, U+2003 and
+// blanks mixed in) right after the audit(...) header, at either end or at a token boundary, and sometimes
+// drops everything after the run: the parser trims and measures offsets around such runs.
+func mutateWhitespace(r *mon.Rand, s string) string {
+	ws := []string{"\n", "\r\n", "\t", "\v", "\f", "\u00a0", "\u2003", " ", " ", "\r"}
+	var sb strings.Builder
+	one := mon.Pick(r, ws)
+	for i, n := 0, mon.Pick(r, []int{1, 2, 3, 8, 27, 28, 29, 40, 64}); i < n; i++ {
+		if r.Chance(1, 4) {
+			sb.WriteString(mon.Pick(r, ws))
+		} else {
+			sb.WriteString(one)
+		}
+	}
+	if r.Bool() {
+		sb.WriteString(" ")
+	}
+	run := sb.String()
+	pos := 0
+	switch r.Intn(4) {
+	case 0:
+		if i := strings.Index(s, ")"); i >= 0 {
+			pos = i + 1
+		}
+	case 1:
+		pos = len(s)
+	case 2:
+		pos = 0
+	default:
+		if i := strings.Index(s[r.Intn(len(s)+1):], " "); i >= 0 {
+			pos = i
+		}
+	}
+	if r.Chance(1, 2) {
+		return s[:pos] + run
+	}
+	return s[:pos] + run + s[pos:]
 }
